@@ -332,6 +332,51 @@ theorem C15_failed_send_two_errors (w w' : World δ) (ctr : Nat) (S : Session δ
   simp
 #assert_axioms C15_failed_send_two_errors
 
+theorem extQ_enqInt_aux (w : World δ) (q sid : Nat) (e : Event δ) :
+    (lookup (enqInt w q e) sid).map (·.extQ) = (lookup w sid).map (·.extQ) := by
+  rw [C15_enqInt_frame]
+  cases lookup w sid with
+  | none => rfl
+  | some s => simp only [Option.map_some]; split <;> rfl
+#assert_axioms extQ_enqInt_aux
+
+/-- a `<send>` that fails (returns `false`) touches no external queue of any session: only
+error events on the sender's internal queue -/
+theorem C15_failed_send_touches_no_external_queue (w w' : World δ) (ctr c : Nat) (S S' : Session δ)
+    (sp : SendSpec δ) (hS : lookup w S.sid = some S')
+    (h : execSend w ctr S sp = .done w' c false) :
+    ∀ sid, (lookup w' sid).map (·.extQ) = (lookup w sid).map (·.extQ) := by
+  intro sid
+  unfold execSend at h
+  simp only at h
+  generalize (if sp.type = [] then procUrl else sp.type) = ty at h
+  by_cases h1 : sp.delayMs < 0
+  · rw [if_pos h1] at h; cases h; exact extQ_enqInt_aux _ _ _ _
+  · rw [if_neg h1] at h
+    by_cases h2 : sp.delayMs > 0 ∧ sp.target = tInternal
+    · rw [if_pos h2] at h; cases h; exact extQ_enqInt_aux _ _ _ _
+    · rw [if_neg h2] at h
+      by_cases h3 : sp.delayMs > 0
+      · rw [if_pos h3] at h
+        split at h
+        · cases h
+        · cases h; exact extQ_enqInt_aux _ _ _ _
+      · rw [if_neg h3] at h
+        split at h
+        · cases hr : routeSend w S sp.target (buildEvent S sp (sendId sp ctr).1) with
+          | panic site => rw [hr] at h; cases h
+          | done w1 ok =>
+            rw [hr] at h
+            cases ok with
+            | true => cases h
+            | false =>
+              cases h
+              have hd := C15_route_did w w1 S S' _ _ false hS hr
+              cases hd with
+              | err e _ => rw [extQ_enqInt_aux, extQ_enqInt_aux]
+        · cases h; exact extQ_enqInt_aux _ _ _ _
+#assert_axioms C15_failed_send_touches_no_external_queue
+
 /-- P13 (finding of C14, recorded here because it shows in C15's runs): an invoked session `M`
 (caller invoke id `m`) sends to a session `C` that is neither its invoker's… — in general to ANY
 receiver whose own caller id differs from `m` and that has no child with invoke id `m`.  The
